@@ -1213,10 +1213,19 @@ short store_prog_string (const char *string_data) {
       next = *idxp;
     }
   else
+    next = -1;
+
+  /* An index into the string table is a short here (the result, the hash
+   * chains in A_STRING_NEXT and string_idx[]): the table ends at SHRT_MAX.
+   * Entry 0 (the name of the file) always exists and stands in for the string
+   * that was refused; the compilation has failed anyway. */
+  if (freed_string < 0 && mem_block[A_STRINGS].current_size / sizeof (char *) > (size_t) SHRT_MAX)
     {
-      *tagp |= mask;
-      next = -1;
+      yyerror ("Too many strings in program (at most 32768).");
+      free_string (str);
+      return 0;
     }
+  *tagp |= mask;
 
   /*
    * New string, add to table
